@@ -6,6 +6,7 @@ package main
 // VerifyHTTPRequest with a real KeyRing over an in-memory key database.
 
 import (
+	"bufio"
 	"bytes"
 	"context"
 	"encoding/base64"
@@ -42,7 +43,9 @@ type scenario struct {
 	NK      int      `json:"nk"`
 	Known   string   `json:"known"`
 	Tampers []string `json:"tampers"`
+	Later   string   `json:"later"`
 	Accept  bool     `json:"accept"`
+	Lenient bool     `json:"lenient"`
 	Rep     struct {
 		M, U, O, D, B string
 	} `json:"rep"`
@@ -108,6 +111,9 @@ func (s *scenario) scenarioKey() string {
 	if s.Style != "canon" {
 		k += "/style=" + s.Style
 	}
+	if s.Later != "-" && s.Later != "same" && s.Later != "" {
+		k += "/later=" + s.Later
+	}
 	return k
 }
 
@@ -121,6 +127,9 @@ func replay(seed int64, raw json.RawMessage) (res hx.Result) {
 	p := newPicker(seed, raw)
 	sort.Strings(s.Tampers)
 	nt := fmt.Sprintf("%s|%s|%s|%s|%s|"+s.Entry+"|nk=%d/%s|os=%s/%s|ds=%s/%s|%s|%v", strings.Join(s.Tampers, "+"), s.Body, s.Down, s.Cfg, s.KV, s.NK, s.Known, s.OS, s.OSP, s.DS, s.DSP, s.Style, s.Accept)
+	if s.Later != "-" && s.Later != "same" {
+		nt += "|later=" + s.Later
+	}
 	fail := func(stage, what string, want, got interface{}) hx.Result {
 		return hx.Result{OK: false, NT: nt, Key: "C13/" + stage + "/" + s.scenarioKey(), What: what, Want: want, Got: got}
 	}
@@ -156,6 +165,9 @@ func replay(seed int64, raw json.RawMessage) (res hx.Result) {
 	}
 	dest := map[string]string{"P": primary, "S": secondary, "F": foreign}[s.Down]
 	uri := pick(p, "uri", uris[s.U])
+	if s.has("uri_case") {
+		uri = pick(p, "uri", withLetters(uris[s.U])) // a target that has another spelling
+	}
 	keyID := pick(p, "keyid", keyIDs)
 	var body string
 	switch s.Body {
@@ -314,6 +326,15 @@ func replay(seed int64, raw json.RawMessage) (res hx.Result) {
 			}
 		case "method_same":
 			w.method = strings.ToUpper(s.M)
+		case "method_case":
+			// the same word in another letter case (get, Get, gET, gEt): not the method that was signed
+			w.method = methodSpelling(w.method, p.n("methodcase", 4))
+		case "uri_case":
+			v, ok := flipLetter(w.uri, p.n("uricase", 1<<16))
+			if !ok {
+				machinery("no other spelling of request target " + w.uri)
+			}
+			w.uri = v
 		case "uri":
 			w.uri = tamperURI(p, w.uri)
 		case "origin":
@@ -610,6 +631,10 @@ func replay(seed int64, raw json.RawMessage) (res hx.Result) {
 		if !accepted {
 			return hx.Result{OK: true, NT: nt + "|open:refused"}
 		}
+		if !s.Lenient {
+			// ... and only what it would accept without the open tampering
+			return fail("refused-by-spec-accepted-by-code", fmt.Sprintf("VerifyHTTPRequest status %d, specification says refuse (with or without tolerance for %v): %s", resp.Code, s.Tampers, desc()), false, true)
+		}
 		s.Rep.M, s.Rep.U, s.Rep.O, s.Rep.D = "M", "U", "O", s.Down
 		s.Rep.B = map[bool]string{true: "none", false: "B"}[body == ""]
 		nt += "|open:accepted"
@@ -657,6 +682,43 @@ func replay(seed int64, raw json.RawMessage) (res hx.Result) {
 	}
 	if len(bad) > 0 {
 		return fail("reported", "accepted, but reports "+strings.Join(bad, "; ")+": "+desc(), "signed fields", bad)
+	}
+	// ---- Later: the same receiver (same goroutine, same key ring) handles other requests while the result of this
+	// one is still in use; what it reports must stay what it was
+	if s.Open && s.Later == "-" {
+		s.Later = "same"
+	}
+	if s.Later == "" || s.Later == "-" {
+		machinery("accepted request without a class of later requests: " + string(raw))
+	}
+	snapM, snapU, snapO, snapD := got.Method(), got.RequestURI(), got.Origin(), got.Destination()
+	snapC := append([]byte(nil), got.Content()...)
+	for i, lw := range laterMessages(s.Later, len(snapC), origin, primary, keyID, priv) {
+		lreq, err := http.ReadRequest(bufio.NewReader(bytes.NewReader(lw)))
+		if err != nil {
+			machinery(fmt.Sprintf("later request %d is not HTTP: %v", i, err))
+		}
+		fclient.VerifyHTTPRequest(lreq, now, spec.ServerName(primary), isLocal, ring)
+		var changed []string
+		if got.Method() != snapM {
+			changed = append(changed, fmt.Sprintf("method %q was %q", got.Method(), snapM))
+		}
+		if got.RequestURI() != snapU {
+			changed = append(changed, fmt.Sprintf("uri %q was %q", got.RequestURI(), snapU))
+		}
+		if got.Origin() != snapO {
+			changed = append(changed, fmt.Sprintf("origin %q was %q", got.Origin(), snapO))
+		}
+		if got.Destination() != snapD {
+			changed = append(changed, fmt.Sprintf("destination %q was %q", got.Destination(), snapD))
+		}
+		if !bytes.Equal(got.Content(), snapC) {
+			changed = append(changed, fmt.Sprintf("content %q was %q", clip(string(got.Content())), clip(string(snapC))))
+		}
+		if len(changed) > 0 {
+			return fail("reported-later", fmt.Sprintf("after the receiver handled later request %d (%q) the accepted request reports %s: %s",
+				i+1, clip(string(lw)), strings.Join(changed, "; "), desc()), "what was reported at acceptance", changed)
+		}
 	}
 	return hx.Result{OK: true, NT: nt}
 }
